@@ -1,6 +1,6 @@
 (* C15 — the result does not depend on the order in which transfers complete. *)
-From AM.Model Require Import Base Download.
-From AM.Lemmas Require Import Shuffle StageLemmas.
+From AM.Model Require Import Base Download Stage.
+From AM.Lemmas Require Import Shuffle StageLemmas StageRunLemmas.
 From Coq Require Import Permutation.
 Open Scope string_scope.
 Open Scope list_scope.
@@ -33,3 +33,11 @@ Theorem counters_order_independent :
   forall l l' : list N, Permutation l l' -> fold_right N.add 0%N l = fold_right N.add 0%N l'.
 Proof. exact counters_perm. Qed.
 Print Assumptions counters_order_independent.
+
+(* the DisjointFootprints hypothesis is about the code's own behaviour: whatever
+   the upstream answers, processing one queued file changes the filesystem only
+   at that file's own target paths (all variants, all alias paths) *)
+Theorem file_touches_only_its_paths :
+  forall f u fs q, ~ In q (all_paths f) -> lookup (r_fs (download_file f u fs)) q = lookup fs q.
+Proof. exact download_frame. Qed.
+Print Assumptions file_touches_only_its_paths.
